@@ -208,6 +208,16 @@ class C23(Property):
                 if not np.all(k[outside] == 0.0):
                     return ctx.violation(("soft" if c["soft"] else "hard") + "-aperture-not-zero-beyond-edge", c,
                                          {"values": np.unique(k[outside]).tolist()[-5:]})
+                if c["soft"]:
+                    # rows / columns through the origin lie on the reciprocal axes: there the edge is the linear ramp of that axis' sampling
+                    s0, s1 = (v * 1e-3 for v in ap.angular_sampling)
+                    tolr = 1e-9 if c["precision"] == "float64" else 5e-3
+                    for line, width, name in ((k[1:, 0], s0, "first"), (k[0, 1:], s1, "second")):
+                        a_line = alpha[1:, 0] if name == "first" else alpha[0, 1:]
+                        expl = np.clip((cut - a_line.astype(np.float64)) / width + 0.5, 0, 1)
+                        if np.abs(line - expl).max() > tolr:
+                            return ctx.violation("soft-aperture-edge-width-does-not-follow-the-sampling-of-its-axis", c,
+                                                 {"axis": name, "max_abs_diff": float(np.abs(line - expl).max())})
                 if not c["soft"] and not np.all(np.isin(k, (0.0, 1.0))):
                     return ctx.violation("hard-aperture-not-a-step", c, {"values": np.unique(k).tolist()[:5]})
             elif chk == "explicit-angles":
@@ -229,6 +239,16 @@ class C23(Property):
                     return ctx.violation("soft-aperture-plateau-not-one", c, {"observed": s.tolist()})
                 if s[1, 1] != 0.0 or s[1, 2] != 0.0:
                     return ctx.violation("soft-aperture-not-zero-beyond-edge", c, {"observed": s.tolist()})
+                # direction dependence of the pixel width: on the first axis the ramp is as wide as the first sampling, on the second
+                # axis as wide as the second one (independent of the model: the linear ramp written out here)
+                u = ufx(c["phi"]) / (4 * math.pi)  # in (-0.25, 0.25)
+                al2 = np.array([[0.0, cut + u * a0 * 1e-3, cut - u * a0 * 1e-3], [cut + u * a1 * 1e-3, cut - u * a1 * 1e-3, cut]], dtype=dt)
+                ph2 = np.array([[0.0, 0.0, np.pi], [np.pi / 2, -np.pi / 2, 0.0]], dtype=dt)
+                s2 = np.asarray(tr.soft_aperture(al2.copy(), ph2.copy(), cut, (a0, a1)), dtype=np.float64)
+                exp2 = np.array([[1.0, 0.5 - u, 0.5 + u], [0.5 - u, 0.5 + u, 0.5]])
+                if np.abs(s2 - exp2).max() > (1e-9 if c["precision"] == "float64" else 2e-3):
+                    return ctx.violation("soft-aperture-edge-width-does-not-follow-the-sampling-of-its-axis", c,
+                                         {"observed": s2.tolist(), "expected": exp2.tolist()})
                 if abs(s[0, 1] - 0.5) > 1e-6:
                     return ctx.violation("soft-aperture-not-one-half-at-the-cutoff", c, {"observed": s.tolist()})
             elif chk == "cutoff-ensemble":
@@ -306,6 +326,22 @@ class C23(Property):
                                          {"ctf_abs": float(k.reshape(-1)[i]), "aperture": float(a.reshape(-1)[i])})
                 if abs(k[0, 0] - 1.0) > 10 * eps:
                     return ctx.violation("ctf-modulus-not-one-at-zero-angle", c, {"value": float(k[0, 0])})
+                # the CTF is exactly the product of its components (the hand glue `ctfModel`), flip_phase keeps the modulus
+                co = {s: ufx(v) for s, v in c["coeffs"].items()}
+                prod = np.asarray(tr.Aberrations(aberration_coefficients=co, energy=energy, **grid)._evaluate_kernel()).astype(np.complex128)
+                if ufx(c["spread"]) != 0:
+                    prod = prod * np.asarray(tr.SpatialEnvelope(angular_spread=ufx(c["spread"]), aberration_coefficients=co, energy=energy,
+                                                                **grid)._evaluate_kernel())
+                if ufx(c["focal"]) != 0:
+                    prod = prod * np.asarray(tr.TemporalEnvelope(focal_spread=ufx(c["focal"]), energy=energy, **grid)._evaluate_kernel())
+                prod = prod * a
+                full = np.asarray(ctf._evaluate_kernel()).astype(np.complex128)
+                if c["flip"]:
+                    prod = prod.real - 1j * np.abs(prod.imag)
+                tolp = 1e-9 if c["precision"] == "float64" else 2e-3
+                if full.shape != prod.shape or np.abs(full - prod).max() > tolp:
+                    return ctx.violation("ctf-is-not-the-product-of-aberrations-envelopes-and-aperture", c,
+                                         {"max_abs_diff": float(np.abs(full - prod).max()) if full.shape == prod.shape else "shape"})
             else:
                 raise ValueError(chk)
 
